@@ -75,6 +75,12 @@ def check(ctx):
                "default), and calc hands a ledger constructed by this call to the pass (stale bookings leave unforced idle days)", floor=2)
     ctx.guarded(o, lambda o: sched_fill.ledger_fresh(ctx, o, S))
 
+    from .c03 import resource_table
+    o = ctx.ob('resource_of_its_own', 'R5',
+               "every resource name gets a Resource object of its own (table keyed by name, a fresh default Resource per undeclared "
+               "name): capacity is measured per resource, not against one shared default object", floor=3)
+    ctx.guarded(o, lambda o: resource_table(ctx, o, (S,)))
+
     o = ctx.ob('linked_tasks_get_project_bound', 'R8',
                "predecessors reached through a dependency link are scheduled with the project start as bound, not with the bound of "
                "the visiting task (which would delay unrelated tasks)")
